@@ -33,8 +33,30 @@ func c19(p *core.Program, r *core.Report) {
 	if fd.Recv != nil && len(fd.Recv.List[0].Names) > 0 {
 		recv = info.Defs[fd.Recv.List[0].Names[0]]
 	}
-	isAllViews := func(e ast.Expr) bool {
+	var isAllViews func(e ast.Expr) bool
+	isAllViews = func(e ast.Expr) bool {
 		switch x := ast.Unparen(e).(type) {
+		case *ast.Ident:
+			// a local that only ever holds the list of all views
+			o := info.ObjectOf(x)
+			if o == nil || o == recv {
+				return false
+			}
+			n, all := 0, true
+			ast.Inspect(fd.Body, func(m ast.Node) bool {
+				if as, ok := m.(*ast.AssignStmt); ok && len(as.Lhs) == len(as.Rhs) {
+					for i, l := range as.Lhs {
+						if id, ok := ast.Unparen(l).(*ast.Ident); ok && info.ObjectOf(id) == o {
+							n++
+							if _, isId := ast.Unparen(as.Rhs[i]).(*ast.Ident); isId || !isAllViews(as.Rhs[i]) {
+								all = false
+							}
+						}
+					}
+				}
+				return true
+			})
+			return n > 0 && all
 		case *ast.CallExpr:
 			if fn := core.CalleeOf(info, x); fn != nil && fn.Name() == "views" && recvNamed(fn, "Field") {
 				if sel, ok := ast.Unparen(x.Fun).(*ast.SelectorExpr); ok {
@@ -134,8 +156,30 @@ func c19(p *core.Program, r *core.Report) {
 		}
 		return []flow.State{s}
 	}
+	// boolean locals that hold the result of the prefix test
+	prefixVars := map[types.Object]ast.Expr{}
+	ast.Inspect(fd.Body, func(m ast.Node) bool {
+		if as, ok := m.(*ast.AssignStmt); ok && len(as.Lhs) == 1 && len(as.Rhs) == 1 {
+			if id, ok := ast.Unparen(as.Lhs[0]).(*ast.Ident); ok {
+				if call, ok := ast.Unparen(as.Rhs[0]).(*ast.CallExpr); ok {
+					if fn := core.CalleeOf(info, call); fn != nil && fn.Pkg() != nil && fn.Pkg().Path() == "strings" && fn.Name() == "HasPrefix" {
+						prefixVars[info.ObjectOf(id)] = call
+					}
+				}
+			}
+		}
+		return true
+	})
 	h.Refine = func(cond ast.Expr, taken bool, s flow.State) (flow.State, bool) {
 		c := ast.Unparen(cond)
+		if ue, ok := c.(*ast.UnaryExpr); ok && ue.Op == token.NOT {
+			c, taken = ast.Unparen(ue.X), !taken
+		}
+		if id, ok := c.(*ast.Ident); ok {
+			if call, ok := prefixVars[info.ObjectOf(id)]; ok {
+				c = call
+			}
+		}
 		if o, neq, ok := flow.IsErrNilTest(info, c); ok && o != nil {
 			if neq == taken {
 				return s | bErr, true
